@@ -12,12 +12,12 @@ OPS = [
     {'op': 'fn', 'path': 'IppRequestResponse::new', 'ret': 'r',
      'spec': '''    ensures
         r.shdr().version == version, r.shdr().operation_or_status == operation as u16, r.shdr().request_id == 1,
-        abs_groups(r.sattrs()) == base_groups(target_text(uri)),
+        c09(c10(abs_groups(r.sattrs()) =~~= base_groups(target_text(uri)))),
         payload_is_empty(r.spayload()),'''},
     {'op': 'fn', 'path': 'IppRequestResponse::new_response', 'ret': 'r',
      'spec': '''    ensures
         r.shdr().version == version, r.shdr().operation_or_status == status as u16, r.shdr().request_id == id,
-        abs_groups(r.sattrs()) == base_groups(None),
+        c09(c10(abs_groups(r.sattrs()) =~~= base_groups(None))),
         payload_is_empty(r.spayload()),'''},
     {'op': 'fn', 'path': 'IppRequestResponse::header_mut', 'ret': 'r',
      'spec': '''    ensures *r == old(self).shdr(), *final(r) == final(self).shdr(),
@@ -48,7 +48,7 @@ pub(crate) broadcast proof fn lemma_req_view(r: IppRequestResponse)
     {'op': 'fn', 'path': 'IppRequestResponse::attributes', 'ret': 'r', 'spec': '    ensures *r == self.sattrs(),'},
     {'op': 'fn', 'path': 'IppRequestResponse::to_bytes', 'ret': 'r',
      'spec': '''    requires groups_sizes(self.sattrs().sgroups()),
-    ensures groups_wf(self.sattrs().sgroups()) ==> exists|b: Seq<u8>, ops: Seq<String>, others: Seq<(int, Seq<String>)>|
-        buf_seq(&r) == spec_header_enc(self.shdr()) + b && #[trigger] attrs_enc_ok(self.sattrs().sgroups(), b, ops, others),'''},
+    ensures c03(c09(groups_wf(self.sattrs().sgroups()) ==> exists|b: Seq<u8>, ops: Seq<String>, others: Seq<(int, Seq<String>)>|
+        buf_seq(&r) == spec_header_enc(self.shdr()) + b && #[trigger] attrs_enc_ok(self.sattrs().sgroups(), b, ops, others))),'''},
     {'op': 'fn', 'path': 'IppRequestResponse::into_payload', 'ret': 'r', 'spec': '    ensures r == self.spayload(),'},
 ]
